@@ -221,6 +221,226 @@ def evaluate_both(case):
     return r1
 
 
+# ----------------------------------------------------------------------------------
+# predictor level: real BottomUpPredictor + make_pipeline + predict(make_labels=False) on
+# coordinate-encoding frames with a content-driven ideal network (scaling, size matching,
+# stride padding and both providers are exercised; tolerance and helpers as in C02)
+
+
+def run_predictor(case, provider, slp, paths, skel):
+    from omegaconf import OmegaConf
+    from sleap_nn.inference.predictors import BottomUpPredictor
+    from checks import c02
+    from vlib.nets import RampBottomUpNet
+
+    eff = c02.sizematch(case["h"], case["w"], case["max_h"], case["max_w"])[0]
+    s_tot = case["scale"] * eff
+    gt = {fid: animals for fid, animals in enumerate(case["frames"])}
+    cs, ps = case["stride"], case["paf_stride"]
+    r = (0.71 * ps + 0.64 * cs) / s_tot  # worst off-ridge distance of a line between grid-aligned peaks (orig px)
+    net = RampBottomUpNet(gt, case["n_nodes"], case["edges"], cs, ps, 1.5 * cs / s_tot, 1.3 * r)
+    names = [n.name for n in skel.nodes]
+    cfg = OmegaConf.create(
+        {
+            "data_config": {"preprocessing": {"scale": case["scale"], "is_rgb": True, "max_height": case["max_h"], "max_width": case["max_w"]}},
+            "model_config": {
+                "backbone_config": {"unet": {"max_stride": case["max_stride"]}},
+                "head_configs": {"bottomup": {
+                    "confmaps": {"output_stride": cs, "part_names": names},
+                    "pafs": {"output_stride": ps, "edges": [[names[a], names[b]] for a, b in case["edges"]]},
+                }},
+            },
+        }
+    )
+    pred = BottomUpPredictor(
+        bottomup_config=cfg, bottomup_model=net, backbone_type="unet", skeletons=[skel], peak_threshold=0.2,
+        integral_refinement=case["refinement"], integral_patch_size=5, batch_size=case["batch"], n_points=10,
+        max_edge_length_ratio=1.0,
+    )
+    pred._initialize_inference_model()
+    pred.make_pipeline(provider, slp if provider == "LabelsReader" else paths, queue_maxsize=4)
+    out = pred.predict(make_labels=False)
+    recs = {}
+    for o in out:
+        for j in range(len(o["frame_idx"])):
+            recs[int(o["frame_idx"][j])] = o["pred_instance_peaks"][j].reshape(-1, case["n_nodes"], 2)
+    return recs
+
+
+def evaluate_predictor(case):
+    import shutil
+
+    import numpy as np
+    from checks import c02
+    from vlib import env
+
+    res = Result()
+    eff = c02.sizematch(case["h"], case["w"], case["max_h"], case["max_w"])[0]
+    s_tot = case["scale"] * eff
+    for animals in case["frames"]:
+        for an in animals:
+            for p in an:
+                if p is not None and (c02.grid_frac(p[0], case["stride"], s_tot) > 0.45 or c02.grid_frac(p[1], case["stride"], s_tot) > 0.45):
+                    res.rejected = True
+                    res.cls("rejected:keypoint-not-in-general-position")
+                    return res
+    tol, _ = c02.tolerance(dict(case, kind="single", image="ramp"), "single")
+    d = env.scratch_dir("c03")
+    try:
+        c = dict(case, image="ramp")
+        # c02.build_inputs builds a chain skeleton; rebuild the labels with this case's tree below
+        slp, paths, skel = build_tree_inputs(c, d)
+        results = {}
+        res.n_evals = 0
+        for provider in ("VideoReader", "LabelsReader"):
+            recs = runner.guarded(res, f"predictor:{provider}", run_predictor, case, provider, slp, paths, skel)
+            if recs is runner.FAILED:
+                continue
+            results[provider] = recs
+            for fid, animals in enumerate(case["frames"]):
+                res.n_evals += 1
+                exp = []
+                for an in animals:
+                    for comp in scenes.expected_groups(an, case["edges"]):
+                        exp.append({k: an[k] for k in comp})
+                pred = recs.get(fid)
+                got = []
+                if pred is not None:
+                    for k in range(pred.shape[0]):
+                        nodes = [i for i in range(case["n_nodes"]) if not np.isnan(pred[k, i]).any()]
+                        if nodes:
+                            got.append({i: pred[k, i].tolist() for i in nodes})
+                used = set()
+                for g in exp:
+                    match = [k for k, p in enumerate(got) if k not in used and set(p) == set(g) and all(max(abs(p[i][0] - g[i][0]), abs(p[i][1] - g[i][1])) <= tol for i in g)]
+                    if match:
+                        used.add(match[0])
+                        continue
+                    near = [p for p in got if set(p) & set(g) and all(max(abs(p[i][0] - g[i][0]), abs(p[i][1] - g[i][1])) <= 4 * tol + 2 for i in set(p) & set(g))]
+                    cls = "missing-instance" if not near else ("wrong-node-set" if set(near[0]) != set(g) else "coordinate-error")
+                    res.fail(f"predictor:{provider}:{cls}", f"frame {fid}: expected {g} (tol {tol:.2f}) not returned; got {[{i: [round(v, 2) for v in p[i]] for i in p} for p in got]}; cfg={ {k: v for k, v in case.items() if k != 'frames'} }")
+                if len(used) == len(exp) and len(got) > len(exp):
+                    res.fail(f"predictor:{provider}:extra-instance", f"frame {fid}: {len(got)} instances for {len(exp)} expected groups")
+        if len(results) == 2:
+            a, b = results["VideoReader"], results["LabelsReader"]
+            ok = set(a) == set(b)
+            diff = 0.0
+            if ok:
+                for fid in a:
+                    if a[fid].shape != b[fid].shape or not np.array_equal(np.isnan(a[fid]), np.isnan(b[fid])):
+                        ok = False
+                    else:
+                        dd = np.nan_to_num(np.abs(a[fid] - b[fid]), nan=0.0)
+                        diff = max(diff, float(dd.max()) if dd.size else 0.0)
+            if not ok or diff > 1e-4:
+                res.fail("predictor:providers-differ", f"LabelsReader and VideoReader outputs differ (max diff {diff:.3f}, same structure {ok})")
+        multi = any(len(f) >= 2 for f in case["frames"])
+        missing = any(p is None for f in case["frames"] for an in f for p in an)
+        res.nontrivial = (multi or missing) and (case["scale"] != 1.0 or eff != 1.0 or case["stride"] != case["paf_stride"])
+        res.cls("predictor", f"pred:scale={case['scale']}", f"pred:strides={case['stride']}/{case['paf_stride']}", "pred:sizematch" if eff != 1.0 else "pred:no-sizematch")
+        res.n_evals = max(1, res.n_evals)
+        return res
+    finally:
+        shutil.rmtree(d, ignore_errors=True)
+
+
+def build_tree_inputs(case, d):
+    import os
+
+    import imageio.v3 as iio
+    import numpy as np
+    import sleap_io as sio
+    from vlib import synth
+    from vlib.nets import RampNet
+
+    try:
+        sio.set_default_image_plugin("imageio")
+    except Exception:  # noqa: BLE001
+        pass
+    h, w, n = case["h"], case["w"], case["n_nodes"]
+    paths = []
+    for fid in range(len(case["frames"])):
+        img = synth.ramp_image(h, w, "rgb")
+        img[..., 2] = RampNet.level(fid)
+        p = os.path.join(d, f"f{fid:03d}.png")
+        iio.imwrite(p, img)
+        paths.append(p)
+    names = [f"n{i}" for i in range(n)]
+    skel = sio.Skeleton(nodes=names, edges=[(names[a], names[b]) for a, b in case["edges"]])
+    video = sio.Video.from_filename(paths)
+    lfs = []
+    for fid, animals in enumerate(case["frames"]):
+        insts = [sio.Instance.from_numpy(points_data=np.array([[math.nan, math.nan] if p is None else p for p in an], dtype=np.float64).reshape(n, 2), skeleton=skel) for an in animals]
+        if not insts:  # a labeled frame needs an instance object; an all-NaN one carries no keypoints
+            insts = [sio.Instance.from_numpy(points_data=np.full((n, 2), np.nan), skeleton=skel)]
+        lfs.append(sio.LabeledFrame(video=video, frame_idx=fid, instances=insts))
+    labels = sio.Labels(labeled_frames=lfs, videos=[video], skeletons=[skel])
+    slp = os.path.join(d, "labels.slp")
+    labels.save(slp, embed=False)
+    return slp, paths, skel
+
+
+def strategy_predictor():
+    from hypothesis import strategies as st
+    from checks import c02
+
+    @st.composite
+    def case(draw):
+        cs, ps, scale = draw(st.sampled_from([(c, p, s) for c in (1, 2, 4) for p in (1, 2, 4) for s in (1.0, 0.5, 0.75, 1.5) if max(c, p) / s <= 8]))
+        n, edges = draw(scenes.tree_strategy(st, 2, 4))
+        refinement = draw(st.sampled_from([None, "integral"]))
+        smc = draw(st.sampled_from(["none", "equal", "larger", "smaller"]))
+        eff_guess = {"none": 1.0, "equal": 1.0, "larger": 1.15, "smaller": 0.8}[smc]
+        s_g = scale * eff_guess
+        _, depth, _ = scenes.tree_depths(n, edges)
+        dmax = max(depth.values())
+        lmin = max(4.0 * ps, 3.0 * cs, 6.0) / s_g
+        lmax = 1.3 * lmin
+        ridge = 1.3 * (0.71 * ps + 0.64 * cs) / s_g
+        gap = max(9 * cs / s_g, 2.0 * lmax, 5 * ridge)
+        cell = 2 * dmax * lmax + gap
+        border = (4 * cs + 2) / s_g + 2.0 / min(1.0, s_g)
+        want = draw(st.integers(1, 3))
+        gx = draw(st.integers(1, want))
+        gy = int(math.ceil(want / gx))
+        w = int(min(250, math.ceil(gx * cell + 2 * border) + draw(st.integers(0, 16))))
+        h = int(min(250, math.ceil(gy * cell + 2 * border) + draw(st.integers(0, 16))))
+        if smc == "none":
+            mh, mw = None, None
+        elif smc == "equal":
+            mh, mw = h, w
+        elif smc == "larger":
+            mh, mw = h + draw(st.integers(1, 50)), w + draw(st.integers(1, 50))
+        else:
+            mh, mw = max(40, h - draw(st.integers(1, 50))), max(40, w - draw(st.integers(1, 50)))
+        eff = c02.sizematch(h, w, mh, mw)[0]
+        s_tot = scale * eff
+        nx, ny = int((w - 2 * border) // cell), int((h - 2 * border) // cell)
+        slots = [(ix, iy) for iy in range(ny) for ix in range(nx)]
+        frames = []
+        for _ in range(draw(st.integers(1, 3))):
+            chosen = list(draw(st.permutations(slots)))[:want]
+            animals = []
+            for ix, iy in chosen:
+                pts = scenes.embed_animal(draw, st, n, edges, (border + (ix + 0.5) * cell, border + (iy + 0.5) * cell), lmin, lmax)
+                snapped = []
+                for p in pts:
+                    q = []
+                    for v in p:
+                        u = round(((v + 0.5) * s_tot - 0.5) / cs) + draw(st.sampled_from([-0.4, -0.2, 0.0, 0.15, 0.35]))
+                        q.append(round((u * cs + 0.5) / s_tot - 0.5, 4))
+                    snapped.append(q)
+                animals.append(scenes.apply_visibility(draw, st, snapped, n, edges, draw(st.sampled_from(scenes.VIS_PATTERNS))))
+            frames.append(animals)
+        return {
+            "n_nodes": n, "edges": edges, "h": h, "w": w, "max_h": mh, "max_w": mw, "scale": scale, "stride": cs, "paf_stride": ps,
+            "max_stride": draw(st.sampled_from([1, 8, 16, 32])), "refinement": refinement, "batch": draw(st.integers(1, 3)),
+            "blob_sigma": 2.0, "frames": frames,
+        }
+
+    return case()
+
+
 def strategy():
     from hypothesis import strategies as st
 
@@ -291,6 +511,9 @@ def parts(tier):
     return [
         Part(name="frames", evaluate=evaluate if tier == "quick" else evaluate_both, strategy=strategy, summarize=summarize,
              budget={"quick": 220, "thorough": 6000}, min_nontrivial={"quick": 30, "thorough": 800}),
+        Part(name="predictor", evaluate=evaluate_predictor, strategy=strategy_predictor,
+             summarize=lambda c: {k: v for k, v in c.items()},
+             budget={"quick": 60, "thorough": 1600}, min_nontrivial={"quick": 8, "thorough": 200}),
     ]
 
 
